@@ -137,6 +137,10 @@ type Failure struct {
 
 var active atomic.Pointer[Sched]
 
+// Progress counts scheduler hand-offs and yields of the whole process; the wall-clock watchdog of the
+// worker uses it to tell a task that spins in code without yield points from a run that is merely long.
+var Progress atomic.Uint64
+
 // Active reports whether a scheduler is installed.
 func Active() bool { return active.Load() != nil }
 
@@ -212,6 +216,7 @@ func Yield(site int) {
 	}
 	if s.cur == t {
 		s.Yields++
+		Progress.Add(1)
 		s.LastSite = site
 		if site > 0 && site < len(s.NoPre) && s.NoPre[site] && !(s.MaxYields > 0 && s.Yields > s.MaxYields) {
 			// dependency code: counted for the work budget, never a pre-emption point
@@ -652,6 +657,7 @@ func (s *Sched) Run(horizon time.Duration, maxSteps int) string {
 	oracleAlive := false
 	for {
 		synctest.Wait()
+		Progress.Add(1)
 		s.mu.Lock()
 		if s.KeepTape && len(s.Tape) > 0 && s.tapeOpen {
 			s.Tape[len(s.Tape)-1].Y = s.turnY
